@@ -20,6 +20,9 @@ Open Scope bool_scope.
 Inductive bop :=
 | BStart (n : nat) (r : waiting)     (* node n: startSourceBridge for tunnel w_tunnel r with the mapping's data r *)
 | BEnd (n : nat) (t : str)           (* node n: the lifecycle of its bridge for t ends (any way) *)
+| BRefused (n : nat) (t : str)       (* node n: a source-side TunnelOpen for t that handleSourceBridge -> startSourceBridge
+                                        REFUSES before it registers anything (no cloud control, mapping lookup fails, ...):
+                                        handleSourceBridge returns the error and touches nothing *)
 | BOther (o : op).                   (* any direct RoutingTable call / clock tick *)
 
 Definition bindex := nat -> str -> bool.
@@ -31,6 +34,7 @@ Definition bcalls (ix : bindex) (b : bop) : list op * bindex :=
   match b with
   | BStart n r => if ix n (w_tunnel r) then ([], ix) else ([ORegister n r], bi_set ix n (w_tunnel r) true)
   | BEnd n t => if ix n t then ([ORemove n t], bi_set ix n t false) else ([], ix)
+  | BRefused _ _ => ([], ix)
   | BOther o => ([o], ix)
   end.
 
@@ -52,5 +56,15 @@ Definition bcalls_skip_local (ctl : nat -> Z -> bool) (ix : bindex) (b : bop) : 
       if ix n (w_tunnel r) then ([], ix)
       else if ctl n (w_dst r) then ([], bi_set ix n (w_tunnel r) true)
       else ([ORegister n r], bi_set ix n (w_tunnel r) true)
+  | _ => bcalls ix b
+  end.
+
+(* variant kept to refute it: the error path of handleSourceBridge "cleans up" the routing record of the id whenever
+   startSourceBridge refused the open (duplicate on the same node, failed open on another node) - every refusal happens
+   before this call registered anything, so the record deleted is somebody else's *)
+Definition bcalls_cleanup_on_refusal (ix : bindex) (b : bop) : list op * bindex :=
+  match b with
+  | BStart n r => if ix n (w_tunnel r) then ([ORemove n (w_tunnel r)], ix) else bcalls ix b
+  | BRefused n t => ([ORemove n t], ix)
   | _ => bcalls ix b
   end.
